@@ -183,7 +183,11 @@ namespace cnl {
             // A comprehensive solution would fully optimise width of result type.
             // E.g. 0x00000001 would report num_bits=1, not 31.
             // But this is fast, simple and avoids the pathological case.
-            auto const first_digit_char{str[offset + (str[offset] == radix_char)]};
+            auto first_digit_pos{offset};
+            while (str[first_digit_pos] == radix_char || str[first_digit_pos] == separator) {
+                ++first_digit_pos;
+            }
+            auto const first_digit_char{str[first_digit_pos]};
             auto const first_digit{make_char_to_digit_positive(base)(first_digit_char)};
             return params{
                     is_negative, base,
